@@ -42,7 +42,7 @@ inputs that change payload while stalled (illegal for a stream; not generated).
 from rv.sim import Bench
 
 PROPERTY = "C26"
-CASES = {"quick": 480, "thorough": 8000}
+CASES = {"quick": 320, "thorough": 6000}
 RULE = ("case = (arbiter kind in {StreamArbiter/StreamInterface, SuperSpeedStreamArbiter, HeaderQueueArbiter, StreamArbiter over "
         "4-bit-valid SuperSpeedStreamInterface}, 1..4 inputs, per-input gap/burst-length profile, source ready profile, "
         "rendezvous phases, optional withdrawals), 500-2000 cycles; non-trivial = >=1 contended decision (>=2 inputs waiting when "
